@@ -71,7 +71,12 @@ def handle (op : String) (a : Json) : P Json := do
   | "meets" =>
     let ring ← getList ptOf a "ring"
     let ss ← getList shapeOf a "shapes"
-    pure <| okJ (boolsJ (ss.map (hits ringMeets ring)))
+    -- per shape: [polygon meets shape, the same evaluated with the arguments exchanged (rectangle / polygon)]
+    let sym : Shape → Bool := fun sh => match sh with
+      | .prim (.rect l w ctr c s) => ringsMeet (rectVerts l w ctr c s) ring
+      | .prim (.poly vs) => ringsMeet vs ring
+      | other => hits ringMeets ring other
+    pure <| okJ (Json.arr (ss.map (fun sh => boolsJ [hits ringMeets ring sh, sym sh])).toArray)
   | "net" =>
     let tol ← getRat a "tol"
     let init ← field a "init"
